@@ -115,6 +115,7 @@ type gtTr struct {
 	ifaceKey   string              // sort key of the interface field last resolved by ifaceField
 	listKey    string              // ... and of the slice-of-nodes field last resolved by stringerList
 	autoFuel   map[ast.Node]string // fuel measures of loops the translator itself writes (range over a string)
+	callRename map[string]string   // during one call: prefixes of the callee's interface-method parameters -> the caller's
 	named      []string            // named results used as variables
 	loopCache  map[ast.Node]*loopCache
 	inMutCall  bool
@@ -823,6 +824,7 @@ func (tr *gtTr) call(c *ast.CallExpr, env *venv) ex {
 	}
 	var args []ex
 	var binds []gbind
+	var rename map[string]string
 	for i, a := range list {
 		if callee.params[i].typ.kind == kStruct {
 			// a struct (or pointer to struct) that the callee only reads: pass the fields it reads
@@ -840,11 +842,26 @@ func (tr *gtTr) call(c *ast.CallExpr, env *venv) ex {
 			}
 			continue
 		}
+		if pt := callee.params[i].typ; pt.kind == kOther && pt.ndir != "" {
+			// a parameter of a /repo interface type handed on to a helper: the callee has no binder for it, only the
+			// parameters m_<its name>_<Method> for the methods it calls; they are the caller's m_<argument>_<Method>
+			if id, ok := unparen(a).(*ast.Ident); ok {
+				if v := env.lookup(id.Name); v != nil && v.typ.kind == kOther && v.typ.ndir == pt.ndir && v.typ.nname == pt.nname && tr.isParam(id.Name) {
+					if rename == nil {
+						rename = map[string]string{}
+					}
+					rename["m_"+callee.params[i].goName+"_"] = "m_" + id.Name + "_"
+					continue
+				}
+			}
+		}
 		e := tr.expr(a, env)
 		binds = mergeBinds(binds, e.binds)
 		e.binds = nil
 		args = append(args, tr.checkArg(callee, i, e))
 	}
+	tr.callRename = rename
+	defer func() { tr.callRename = nil }()
 	tr.inMutCall = allowMut
 	defer func() { tr.inMutCall = false }()
 	return tr.applyFn(callee, args, binds)
@@ -860,8 +877,28 @@ func (tr *gtTr) applyFn(callee *gtFn, args []ex, binds []gbind) ex {
 	}
 	parts := []string{callee.coqName}
 	if !callee.abstract {
-		tr.inherit(callee)
-		parts = append(parts, callee.implicitArgs()...)
+		if len(tr.callRename) == 0 {
+			tr.inherit(callee)
+			parts = append(parts, callee.implicitArgs()...)
+		} else {
+			// the callee's interface-method parameters under the names of the caller's arguments
+			ren := func(n string) string {
+				for from, to := range tr.callRename {
+					if strings.HasPrefix(n, from) {
+						return to + n[len(from):]
+					}
+				}
+				return n
+			}
+			renamed := *callee
+			renamed.abstracts = nil
+			for _, a := range callee.abstracts {
+				a.name = ren(a.name)
+				renamed.abstracts = append(renamed.abstracts, a)
+			}
+			tr.inherit(&renamed)
+			parts = append(parts, renamed.implicitArgs()...)
+		}
 	}
 	for _, a := range args {
 		parts = append(parts, a.code)
@@ -922,6 +959,15 @@ func (tr *gtTr) fieldPath(v *gvar, path string) ex {
 }
 
 // inherit: the caller needs every implicit parameter of the callee.
+func (tr *gtTr) isParam(name string) bool {
+	for _, prm := range tr.fn.params {
+		if prm.goName == name {
+			return true
+		}
+	}
+	return false
+}
+
 func (tr *gtTr) inherit(callee *gtFn) {
 	if callee.usesV {
 		tr.fn.usesV = true
